@@ -436,13 +436,18 @@ pub fn render(items: &[Item]) -> Rendered {
                     // (iform 4: given by keyword)
                     let vals: Vec<&str> = t.indirect.iter().map(|_| "1").collect();
                     let mut s = if iform == 4 { format!("{}@pytest.mark.parametrize(argnames=\"", ind) } else { format!("{}@pytest.mark.parametrize(\"", ind) };
+                    // blanks around the commas and before the closing quote are legal (pytest strips every name)
+                    let loose = t.params.len() % 2 == 1;
                     for (i, n) in t.indirect.iter().enumerate() {
                         if i > 0 {
-                            s.push_str(", ");
+                            s.push_str(if loose { " ,  " } else { ", " });
                         }
                         let st = u16len(&s);
                         s.push_str(n);
                         out.toks.push(Tok { kind: TokKind::Indirect, name: n.clone(), line: w.line, start: st, end: u16len(&s), item: idx, in_fixture: None });
+                    }
+                    if loose {
+                        s.push(' ');
                     }
                     if iform == 4 {
                         s.push_str(&format!("\", argvalues=[({},)], indirect=True)", vals.join(", ")));
